@@ -30,8 +30,33 @@ def base_env(profile):
     return env
 
 
+REPO = os.environ.get("VERIF_REPO") or "/repo"
+_materialized = {}
+
+
 def crate_dir(crate):
-    return os.path.join(VERIF, crate)
+    """The harness crate directory.  With VERIF_REPO=<dir> (development aid: run a long tier against a
+    snapshot copy of the repository while /repo itself is in use) the crates are materialised under
+    BUILD/crates with their path dependencies rewritten; the registered commands never set it."""
+    if REPO == "/repo":
+        return os.path.join(VERIF, crate)
+    if crate in _materialized:
+        return _materialized[crate]
+    root = os.path.join(BUILD, "crates")
+    for c in ("harness", "harness_nostd"):
+        dst = os.path.join(root, c)
+        shutil.rmtree(dst, ignore_errors=True)
+        os.makedirs(dst)
+        src = os.path.join(VERIF, c)
+        for fn in ("Cargo.toml", "Cargo.lock"):
+            with open(os.path.join(src, fn)) as f:
+                txt = f.read()
+            with open(os.path.join(dst, fn), "w") as f:
+                f.write(txt.replace('"/repo/', '"%s/' % REPO))
+        if os.path.isdir(os.path.join(src, "src")):
+            shutil.copytree(os.path.join(src, "src"), os.path.join(dst, "src"))
+        _materialized[c] = dst
+    return _materialized[crate]
 
 
 def target_dir(crate, profile):
